@@ -160,15 +160,16 @@ func (s raceSet) Operation() (interface{}, error) {
 	return [3]int{s.lo, s.hi, t}, nil
 }
 
-// raceC19: Processor (workers × buffer × ops), Map, and promises with concurrent
-// Fulfill/Fail/Wait callers.
+// raceC19: the scenario families of the forced schedules, unforced: Processor (workers × buffer ×
+// ops; several producers and collectors, with and without Stop), Map, and promises of every flag
+// combination with concurrent Fulfill/Fail/Recover/Break/Wait callers.
 func raceC19(args []string) int {
 	seed, n, budget := raceFlags("race-C19", args)
 	rng := rand.New(rand.NewSource(seed))
 	deadline := time.Now().Add(budget)
 	done := 0
 	for i := 0; i < n && time.Now().Before(deadline); i++ {
-		switch i % 3 {
+		switch i % 5 {
 		case 0:
 			threads, buffer := 1+rng.Intn(6), rng.Intn(3)
 			ops := []int{0, 1, threads - 1, threads, threads + 3, 20}[rng.Intn(6)]
@@ -227,7 +228,19 @@ func raceC19(args []string) int {
 			}
 		case 2:
 			fulfillers, waiters := 1+rng.Intn(3), 1+rng.Intn(3)
-			fmt.Printf("workload %d: promise fulfillers=%d waiters=%d\n", i, fulfillers, waiters)
+			// one of the fulfillers may fulfil with nil: a legal call, and the message
+			// {nil, nil} counts as set
+			nilAt := -1
+			if rng.Intn(2) == 0 {
+				nilAt = rng.Intn(fulfillers)
+			}
+			valueOf := func(k int) interface{} {
+				if k == nilAt {
+					return nil
+				}
+				return 100 + k
+			}
+			fmt.Printf("workload %d: promise fulfillers=%d waiters=%d nil-fulfiller=%d\n", i, fulfillers, waiters, nilAt)
 			p := concurrent.NewPromise(false, false, false)
 			var wg sync.WaitGroup
 			oks := make([]bool, fulfillers)
@@ -238,7 +251,7 @@ func raceC19(args []string) int {
 			}
 			for k := 0; k < fulfillers; k++ {
 				wg.Add(1)
-				go func(k int) { defer wg.Done(); oks[k] = p.Fulfill(100+k) == nil }(k)
+				go func(k int) { defer wg.Done(); oks[k] = p.Fulfill(valueOf(k)) == nil }(k)
 			}
 			wg.Wait()
 			won := -1
@@ -252,14 +265,200 @@ func raceC19(args []string) int {
 				}
 			}
 			for _, v := range vals {
-				if won < 0 || v != 100+won {
-					fmt.Printf("FAILED: Wait returned %v, the successful Fulfill set %d\n", v, 100+won)
+				if won < 0 || v != valueOf(won) {
+					fmt.Printf("FAILED: Wait returned %v, the successful Fulfill set %v\n", v, valueOf(won))
 					return 1
 				}
+			}
+		case 3:
+			if msg := raceProcessorMany(rng, i); msg != "" {
+				fmt.Println("FAILED: " + msg)
+				return 1
+			}
+		case 4:
+			if msg := racePromiseAll(rng, i); msg != "" {
+				fmt.Println("FAILED: " + msg)
+				return 1
 			}
 		}
 		done++
 	}
 	fmt.Printf("race-C19: %d workloads completed, no race reported, all results as required\n", done)
 	return 0
+}
+
+// raceProcessorMany: several producers submit concurrently, several collectors receive
+// concurrently, the queue is closed when the producers are done; sometimes Stop is called while
+// operations are in flight.  Every result is the result of a submitted operation and no operation
+// has two; without Stop every operation has exactly one; every collector sees the channel closed
+// and Wait returns.
+func raceProcessorMany(rng *rand.Rand, i int) string {
+	threads, buffer := 1+rng.Intn(5), rng.Intn(3)
+	np, nc := 1+rng.Intn(3), 1+rng.Intn(3)
+	per := rng.Intn(8)
+	stop := rng.Intn(5) == 0
+	fmt.Printf("workload %d: processor threads=%d buffer=%d producers=%d collectors=%d ops/producer=%d stop=%v\n", i, threads, buffer, np, nc, per, stop)
+	qcap := rng.Intn(3)
+	if stop {
+		// after Stop nobody may be left to drain the queue: give every submission room, so
+		// that the producers cannot block for ever
+		qcap = np*per + 1
+	}
+	q := make(chan concurrent.Operator, qcap)
+	p := concurrent.NewProcessor(q, buffer, threads)
+	var mu sync.Mutex
+	seen := map[int]int{}
+	var prod, coll sync.WaitGroup
+	for ci := 0; ci < nc; ci++ {
+		coll.Add(1)
+		go func() {
+			defer coll.Done()
+			for {
+				v, e := p.Result()
+				if v == nil && e == nil {
+					return
+				}
+				mu.Lock()
+				seen[v.(int)]++
+				mu.Unlock()
+			}
+		}()
+	}
+	for pi := 0; pi < np; pi++ {
+		prod.Add(1)
+		go func(pi int) {
+			defer prod.Done()
+			for k := 0; k < per; k++ {
+				id := 1 + pi*100 + k
+				p.Process(raceOp{v: id, err: k%4 == 3})
+			}
+		}(pi)
+	}
+	if stop {
+		go p.Stop()
+	}
+	finished := make(chan struct{})
+	go func() {
+		prod.Wait()
+		p.Close()
+		p.Wait()
+		coll.Wait()
+		close(finished)
+	}()
+	select {
+	case <-finished:
+	case <-time.After(20 * time.Second):
+		return "processor with several producers/collectors did not shut down after Close"
+	}
+	for pi := 0; pi < np; pi++ {
+		for k := 0; k < per; k++ {
+			id := 1 + pi*100 + k
+			if seen[id] > 1 || (!stop && seen[id] != 1) {
+				return fmt.Sprintf("operation %d produced %d results (stop=%v)", id, seen[id], stop)
+			}
+			delete(seen, id)
+		}
+	}
+	if len(seen) != 0 {
+		return fmt.Sprintf("results that no operation produced: %v", seen)
+	}
+	return ""
+}
+
+// racePromiseAll: a promise with random flags and a random set of concurrent callers of every
+// kind.  Fulfill/Fail/Recover/Break always return; afterwards a final Fulfill makes sure the
+// promise holds a Result (Break and Recover(nil) legitimately empty it), so every Wait must
+// return; what a Wait delivers carries the value of one of the calls (or nil).  On an immutable
+// promise with no resetting caller at most one Fulfill/Fail succeeds and all Waits deliver the
+// same value.
+func racePromiseAll(rng *rand.Rand, i int) string {
+	mutable, recoverable, relay := rng.Intn(2) == 0, rng.Intn(2) == 0, rng.Intn(2) == 0
+	n := 2 + rng.Intn(5)
+	kinds := make([]byte, n)
+	for k := range kinds {
+		kinds[k] = "FFNXXRBWWW"[rng.Intn(10)] // N = Fulfill(nil)
+	}
+	fmt.Printf("workload %d: promise flags=%v/%v/%v calls=%s\n", i, mutable, recoverable, relay, kinds)
+	p := concurrent.NewPromise(mutable, recoverable, relay)
+	wins := make([]bool, n)
+	got := make([]concurrent.Result, n)
+	var setters, waiters sync.WaitGroup
+	resets := false
+	for k, kind := range kinds {
+		k, kind := k, kind
+		val := 100 + k
+		switch kind {
+		case 'W':
+			waiters.Add(1)
+			go func() { defer waiters.Done(); got[k] = <-p.Wait() }()
+		case 'F':
+			setters.Add(1)
+			go func() { defer setters.Done(); wins[k] = p.Fulfill(val) == nil }()
+		case 'N':
+			setters.Add(1)
+			go func() { defer setters.Done(); wins[k] = p.Fulfill(nil) == nil }()
+		case 'X':
+			setters.Add(1)
+			go func() { defer setters.Done(); wins[k] = p.Fail(val, fmt.Errorf("failed %d", val)) }()
+		case 'R':
+			resets = resets || recoverable
+			setters.Add(1)
+			go func() {
+				defer setters.Done()
+				if ok := p.Recover(val); ok != recoverable {
+					wins[k] = true // reported below
+					got[k] = concurrent.Result{Value: "recover-flag"}
+				}
+			}()
+		case 'B':
+			resets = true
+			setters.Add(1)
+			go func() { defer setters.Done(); p.Break() }()
+		}
+	}
+	finished := make(chan struct{})
+	go func() {
+		setters.Wait()
+		p.Fulfill(999) // the promise now holds a Result whatever happened before
+		waiters.Wait()
+		close(finished)
+	}()
+	select {
+	case <-finished:
+	case <-time.After(20 * time.Second):
+		return "a promise call did not return although the promise holds a Result"
+	}
+	nwins := 0
+	var first interface{}
+	haveFirst := false
+	for k, kind := range kinds {
+		switch kind {
+		case 'R':
+			if got[k].Value == "recover-flag" {
+				return "Recover's result disagrees with the recoverable flag"
+			}
+		case 'F', 'N', 'X':
+			if wins[k] {
+				nwins++
+			}
+		case 'W':
+			v := got[k].Value
+			okv := v == nil || v == 999
+			if vi, isInt := v.(int); isInt && vi >= 100 && vi < 100+n && kinds[vi-100] != 'W' && kinds[vi-100] != 'B' && kinds[vi-100] != 'N' {
+				okv = true
+			}
+			if !okv {
+				return fmt.Sprintf("Wait delivered value %v that no call supplied", v)
+			}
+			if !haveFirst {
+				first, haveFirst = v, true
+			} else if !mutable && !resets && v != first {
+				return fmt.Sprintf("two Waits on an immutable promise delivered %v and %v", first, v)
+			}
+		}
+	}
+	if !mutable && !resets && nwins > 1 {
+		return fmt.Sprintf("%d Fulfill/Fail calls succeeded on an immutable promise", nwins)
+	}
+	return ""
 }
